@@ -636,11 +636,17 @@ class SelectorThread:
     def _handle_select(
         self, rs: list[_FileDescriptorLike], ws: list[_FileDescriptorLike]
     ) -> None:
-        for r in rs:
-            self._handle_event(r, self._readers)
-        for w in ws:
-            self._handle_event(w, self._writers)
-        self._start_select()
+        try:
+            for r in rs:
+                self._handle_event(r, self._readers)
+            for w in ws:
+                self._handle_event(w, self._writers)
+        finally:
+            # Always hand the fd sets back to the selector thread, even if
+            # we are being interrupted: otherwise no select would ever run
+            # again and every registered fd would silently stop receiving
+            # events.
+            self._start_select()
 
     def _handle_event(
         self,
@@ -651,7 +657,23 @@ class SelectorThread:
             callback = cb_map[fd]
         except KeyError:
             return
-        callback()
+        try:
+            callback()
+        except (SystemExit, KeyboardInterrupt):
+            raise
+        except BaseException as exc:
+            # With asyncio's own add_reader/add_writer every callback is a
+            # separate Handle, so a callback that raises is reported to the
+            # loop's exception handler and does not affect the others. Do the
+            # same here: if the exception escaped, the remaining events of
+            # this round would be skipped (and, before the finally clause
+            # above existed, the selector thread was never restarted).
+            self._real_loop.call_exception_handler(
+                {
+                    "message": f"Exception in callback {callback!r}",
+                    "exception": exc,
+                }
+            )
 
     def add_reader(
         self, fd: _FileDescriptorLike, callback: Callable[..., None], *args: Any
